@@ -65,7 +65,8 @@ def judge (op : List String) (go : String) : Verdict :=
           .violation cls "rejected(some-path-not-linear)" (nt ++ tags)
         else if small && bad.isNone && !kinds.contains "UnreachableStatementError" &&
             (kinds.contains "ResourceLossError" || kinds.contains "ResourceUseAfterInvalidationError") then
-          let cls := if b.hasHalt || b.hasJump then "rejects-linear-invalidation-before-jump-or-halt" else "rejects-linear"
+          let cls := if b.hasHalt || b.hasJump then "rejects-linear-invalidation-before-jump-or-halt"
+            else if b.hasNestedReturns then "rejects-linear-nested-returns" else "rejects-linear"
           .violation cls "accepted(all-paths-linear)" (nt ++ tags)
         else if goErrs == model then .ok (nt ++ tags)
         else .modelDiff model (nt ++ tags)
